@@ -246,7 +246,7 @@ func (c Int16) Erf(a ConstScalar) Scalar {
 }
 func (c Int16) Erfc(a ConstScalar) Scalar {
   x := a.GetFloat64()
-  c.SetFloat64(math.Erf(x))
+  c.SetFloat64(math.Erfc(x))
   return c
 }
 func (c Int16) LogErfc(a ConstScalar) Scalar {
